@@ -36,10 +36,10 @@ def run_property(prop: str, tier: str, repo: str, seed: int, evidence_dir=None, 
         print(f"ANALYSIS-ERROR property={prop} {e}")
         try:
             chk.extra["fatal_analysis_error"] = str(e)
-            chk.finish()
+            code = chk.finish()
         except Exception:
-            pass
-        return 2
+            code = 2
+        return code if code in (1, 2) else 2
     return chk.finish()
 
 
